@@ -25,3 +25,11 @@ package checker
 //@ func checker.init
 //@   ensures[interfaceType] interfaceType != nil
 //@   ensures[basic-types] boolType != nil && integerType != nil && floatType != nil && stringType != nil && arrayType != nil && mapType != nil
+
+// the first error wins and carries the location of the offending node (C13)
+//@ func checker.visitor.error returns t
+//@   property C13
+//@   mode panics
+//@   requires v != nil && node != nil
+//@   ensures[first-wins] old(v.err) != nil ==> v.err == old(v.err)
+//@   ensures[recorded] old(v.err) == nil ==> v.err != nil
